@@ -340,6 +340,10 @@ def na_base(rng, setup):
     d.queued = bool(d.qmode)
     d.kinds = {}
     d.const = {}
+    if setup[3] and rng.random() < 0.6:
+        # async classes: callbacks as plain functions, coroutine functions (suspending or not) or plain callables
+        # handing back a Task / Future / __await__ object — a failure must be contained whatever the flavour
+        d.kinds = {c: rng.choice([0, 1, 2, 3, 4, 5]) for c in d.cb_slot}
     if setup[2]:
         anested.impose_tree(d, rng)
     return d
